@@ -461,6 +461,35 @@ def splice_purity(ctx, rid):
             n_mut += 1
             if c.name not in STRING_GROW:
                 bad.append("%s at %s" % (c.name, g.loc(c.line)))
+    # what is appended: a slice of the old source, or an accepted replacement as it is (no re-encoding of line ends, no trimming)
+    foreign = []
+    IDENT = {"deref", "as_str", "as_ref", "borrow", "as_bytes", "as_mut_str", "deref_mut", "index", "clone", "to_string", "to_owned", "into", "from", "as_mut"}
+    for g in fam:
+        for c in g.calls:
+            if c.bb not in g.live_blocks or c.name not in ("push_str", "extend", "push", "write_str") or len(c.args) < 2 or c.args[0][0] == "k":
+                continue
+            if not g.locals[c.args[0][1][0]].startswith("&mut alloc::string::String") or is_old_source(g, c.args[0]):
+                continue
+            seen = set()
+            def walk(h, op, depth=0):
+                if op[0] == "k" or depth > 10:
+                    return
+                for o in h.trace_operand(op):
+                    k = (h.id, o.kind, o.ref if isinstance(o.ref, (int, str)) else id(o.ref))
+                    if k in seen:
+                        continue
+                    seen.add(k)
+                    if o.kind == "call":
+                        if o.ref.name in IDENT and o.ref.args:
+                            walk(h, o.ref.args[0], depth + 1)
+                        elif o.ref.name in ("next", "into_iter", "iter"):
+                            pass
+                        else:
+                            foreign.append("%s at %s" % (o.ref.name, h.loc(o.ref.line)))
+            walk(g, c.args[1])
+    ctx.ob(rid, "apply_rewrite/appends only old text and replacements as they are", not foreign,
+           "every appended piece is a slice of the old source or a Diff.replacement through borrow/deref only" if not foreign else
+           "an appended piece is computed by %s: the bytes written differ from the announced replacement (e.g. line ends re-encoded only on the -U path)" % foreign[:3], where=ar0.loc())
     ctx.ob(rid, "apply_rewrite/output is only appended to", not bad and n_mut >= 2,
            "%d mutating call(s) on the text being built, all appends" % n_mut if not bad else
            "the text being written is modified by %s: bytes already written (old source or an accepted replacement) are taken back, which no announced edit describes" % bad[:3], where=ar0.loc())
